@@ -211,6 +211,9 @@ func runC05(r *vf.Run) {
 		d.Index()
 		return d
 	}})
+	cases = append(cases, c5{id: "r70000", crafted: true, ds: func(rng *rand.Rand) *gen.Dataset {
+		return gen.MakeDataset(rng, "r70000", gen.DatasetOpts{Rows: 70000, MaxCols: 3, EmptyRows: true, TrailingEmpty: 2, MaxCard: 1500})
+	}})
 	cases = append(cases, c5{id: "concat", crafted: true, ds: func(rng *rand.Rand) *gen.Dataset {
 		return gen.MakeDataset(rng, "concat", gen.DatasetOpts{Rows: 400, Concat: true, WithUnique: true})
 	}})
